@@ -888,6 +888,21 @@ def _cycle_repair(itree: ast.Module) -> dict:
     return dict(ancestry_check=check, parents_extended=extended, parents_roundtrip=roundtrip, detail=info)
 
 
+ITER_ADAPTERS = ('reversed', 'sorted', 'list', 'tuple', 'iter', 'enumerate')
+
+
+def _strip_adapters(it: ast.expr, target: ast.expr) -> tuple[ast.expr, ast.expr]:
+    """`for t in reversed(x)` / sorted / list / tuple / iter hand out the elements of x, `for i, t in enumerate(x)` pairs them
+    with a number: the iterable and the target that receives its elements."""
+    while isinstance(it, ast.Call) and isinstance(it.func, ast.Name) and len(it.args) == 1 and not it.keywords and it.func.id in ITER_ADAPTERS:
+        if it.func.id == 'enumerate':
+            if not (isinstance(target, ast.Tuple) and len(target.elts) == 2):
+                break
+            target = target.elts[1]
+        it = it.args[0]
+    return it, target
+
+
 def _template_census(fn: ast.FunctionDef) -> dict:
     """Every use of an object that belongs to the template (file.vmf...) inside collapse_one."""
     tmpl_names = {'file'}
@@ -906,15 +921,16 @@ def _template_census(fn: ast.FunctionDef) -> dict:
                 tmpl_names.add(nm_)
                 changed = True
         for lp in loops:
-            src = ast.unparse(lp.iter)
-            roots = {n.id for n in ast.walk(lp.iter) if isinstance(n, ast.Name)}
+            lp_iter, lp_target = _strip_adapters(lp.iter, lp.target)
+            src = ast.unparse(lp_iter)
+            roots = {n.id for n in ast.walk(lp_iter) if isinstance(n, ast.Name)}
             if roots & tmpl_names:
-                if isinstance(lp.target, ast.Name):
-                    new = {lp.target.id}
-                elif isinstance(lp.target, ast.Tuple) and src.startswith('zip('):
+                if isinstance(lp_target, ast.Name):
+                    new = {lp_target.id}
+                elif isinstance(lp_target, ast.Tuple) and src.startswith('zip('):
                     # zip(old_ent.solids, new_ent.solids): only positions whose argument is rooted in the template
                     new = set()
-                    for t, a in zip(lp.target.elts, lp.iter.args):
+                    for t, a in zip(lp_target.elts, lp_iter.args):
                         if {n.id for n in ast.walk(a) if isinstance(n, ast.Name)} & tmpl_names and isinstance(t, ast.Name):
                             new.add(t.id)
                 else:
@@ -2238,6 +2254,11 @@ def _statement_kinds(c1: ast.FunctionDef, site_nodes: dict[int, list[ast.AST]], 
         for n in ast.walk(c1):
             if isinstance(n, (ast.For, ast.comprehension)):
                 it = n.iter
+                it, tgt_ = _strip_adapters(it, n.target)
+                if it is not n.iter and is_chain(it) and root(it) in tenv:
+                    changed |= bind(tgt_, elem_type(typeof(it)), it, True)
+                    continue
+                it = n.iter
                 if isinstance(it, ast.Call) and isinstance(it.func, ast.Name) and it.func.id == 'zip' and isinstance(n.target, ast.Tuple) \
                         and len(n.target.elts) == len(it.args) and not it.keywords:
                     for t_, a_ in zip(n.target.elts, it.args):
@@ -2245,6 +2266,12 @@ def _statement_kinds(c1: ast.FunctionDef, site_nodes: dict[int, list[ast.AST]], 
                             changed |= bind(t_, elem_type(typeof(a_)), a_, True)
                 elif is_chain(it) and root(it) in tenv:
                     changed |= bind(n.target, elem_type(typeof(it)), it, True)
+                elif any(isinstance(x, ast.Name) and x.id in tenv for x in ast.walk(it)):
+                    # template objects reach the loop through something else (enumerate(..), sorted(..), a method ..):
+                    # every target name may be a template object, of unknown type
+                    for x in ast.walk(n.target):
+                        if isinstance(x, ast.Name):
+                            changed |= bind(x, UNKNOWN, None, False)
             elif isinstance(n, ast.Assign) and is_chain(n.value) and root(n.value) in tenv:
                 for tg in n.targets:
                     changed |= bind(tg, typeof(n.value), n.value, False)
@@ -2347,6 +2374,16 @@ def _statement_kinds(c1: ast.FunctionDef, site_nodes: dict[int, list[ast.AST]], 
             if isinstance(par, ast.Call) and isinstance(par.func, ast.Name) and par.func.id == 'zip' and top in par.args \
                     and isinstance(gp, (ast.For, ast.comprehension)) and gp.iter is par:
                 continue
+            if isinstance(par, ast.Call) and isinstance(par.func, ast.Name) and top in par.args and not par.keywords:
+                if par.func.id in ('len', 'bool', 'any', 'all', 'isinstance'):
+                    continue                  # a number / truth value
+                if par.func.id in ('enumerate', 'reversed', 'sorted', 'list', 'tuple', 'iter'):
+                    outer, up = par, gp
+                    while isinstance(up, ast.Call) and isinstance(up.func, ast.Name) and up.func.id in ('enumerate', 'reversed', 'sorted', 'list', 'tuple', 'iter') \
+                            and outer in up.args and not up.keywords:
+                        outer, up = up, parents.get(id(up))
+                    if isinstance(up, (ast.For, ast.comprehension)) and up.iter is outer:
+                        continue              # iterated over at once: the elements are bound to tracked template names
             if isinstance(par, (ast.Compare, ast.BoolOp)) or isinstance(par, ast.UnaryOp) and isinstance(par.op, ast.Not) \
                     or isinstance(par, (ast.If, ast.IfExp, ast.While)) and par.test is top:
                 continue
@@ -2411,7 +2448,8 @@ def _visibility_and_ids(c1: ast.FunctionDef, fk: ast.FunctionDef) -> dict:
     nothing else skips one, and that both copies and the SIDE_LIST branch of fixup_key use the same face-ID map."""
     def loop(attr: str) -> ast.For:
         al = _single_assigned_locals(c1)
-        found = [n for n in ast.walk(c1) if isinstance(n, ast.For) and ast.unparse(_unalias(n.iter, al)) == f'file.vmf.{attr}']
+        found = [n for n in ast.walk(c1) if isinstance(n, ast.For)
+                 and ast.unparse(_unalias(_strip_adapters(n.iter, n.target)[0], al)) == f'file.vmf.{attr}']
         if len(found) != 1:
             raise TranslateError(f'collapse_one: expected exactly one loop over file.vmf.{attr}')
         return found[0]
@@ -2596,7 +2634,7 @@ def translate() -> tuple[str, dict]:
             for c in ([n.value] if isinstance(n, ast.Expr) and isinstance(n.value, ast.Call) else []):
                 if isinstance(c.func, ast.Attribute) and c.func.attr == 'localise':
                     loc_sites.append({'recv': ast.unparse(c.func.value), 'args': [ast.unparse(a) for a in c.args],
-                                      'loop': ast.unparse(_unalias(lp.iter, _single_assigned_locals(c1))), 'line': c.lineno,
+                                      'loop': ast.unparse(_unalias(_strip_adapters(lp.iter, lp.target)[0], _single_assigned_locals(c1))), 'line': c.lineno,
                                       'unconditional': True})
     all_loc = [n for n in ast.walk(c1) if isinstance(n, ast.Call) and isinstance(n.func, ast.Attribute) and n.func.attr == 'localise']
     side['localise_sites'] = loc_sites
@@ -3016,10 +3054,11 @@ def translate() -> tuple[str, dict]:
         best = ''
         for lp in ast.walk(c1):
             if isinstance(lp, ast.For) and lp.lineno <= line <= (lp.end_lineno or lp.lineno):
-                if isinstance(lp.target, ast.Name) and lp.target.id == recv:
-                    best = ast.unparse(lp.iter)
-                elif isinstance(lp.target, ast.Tuple) and isinstance(lp.iter, ast.Call) and ast.unparse(lp.iter.func) == 'zip':
-                    for t, a in zip(lp.target.elts, lp.iter.args):
+                lp_iter, lp_target = _strip_adapters(lp.iter, lp.target)
+                if isinstance(lp_target, ast.Name) and lp_target.id == recv:
+                    best = ast.unparse(lp_iter)
+                elif isinstance(lp_target, ast.Tuple) and isinstance(lp_iter, ast.Call) and ast.unparse(lp_iter.func) == 'zip':
+                    for t, a in zip(lp_target.elts, lp_iter.args):
                         if isinstance(t, ast.Name) and t.id == recv:
                             best = ast.unparse(a)
         return best
